@@ -615,8 +615,46 @@ def established_le(prog, body, bb, small, big, strict=False):
     return False
 
 
-def refined_interval(prog, body, bb, op, upto=None):
+def _phi_of_tuple_field(body, op):
+    """op is field k of a tuple local that is only ever assigned whole tuple aggregates (one per arm of a `match` that yields a tuple): the list of
+    (def block, statement index, k-th operand) -- else None"""
+    if isinstance(op, tuple) or op.place is None:
+        return None
+    l, projs = op.place
+    if len(projs) != 1 or projs[0][0] != 'f' or not body.lty(l).startswith('('):
+        # a plain local copied from such a field
+        if not projs:
+            d = unique_def(body, l)
+            if d is not None and d[2] == 'assign' and d[3].rv.r == 'use' and d[3].rv.ops[0].place is not None:
+                return _phi_of_tuple_field(body, d[3].rv.ops[0])
+        return None
+    k = projs[0][1]
+    defs = body.defs.get(l, [])
+    if len(defs) < 2 or l in mut_borrowed(body):
+        return None
+    out = []
+    for (dbb, dsi, dk, dobj) in defs:
+        if dk != 'assign' or dobj.place[1] or dobj.rv.r != 'aggregate' or dobj.rv.j.get('agg') != 'tuple' or k >= len(dobj.rv.ops):
+            return None
+        out.append((dbb, dsi, dobj.rv.ops[k]))
+    return out
+
+
+def refined_interval(prog, body, bb, op, upto=None, _depth=0):
     """interval of op refined by dominating comparisons of the same value with constants"""
+    if _depth < 3:
+        phi = _phi_of_tuple_field(body, op)
+        if phi:
+            # the value is one of the operands the arms put there, each with the comparisons that hold where its tuple is built
+            acc = None
+            for (dbb, dsi, o_) in phi:
+                iv_ = refined_interval(prog, body, dbb, o_, upto=dsi, _depth=_depth + 1)
+                if iv_ is None:
+                    acc = None
+                    break
+                acc = iv_ if acc is None else (min(acc[0], iv_[0]), max(acc[1], iv_[1]))
+            if acc is not None:
+                return acc
     iv = interval(body, op)
     c = canon(body, op)
     if c[0] == 'unknown':
